@@ -19,7 +19,8 @@ MANIFEST = dict(
          "directory move-outs followed by any covered operation (re-creating the old name, moving the directory back in, renaming "
          "a former ancestor - the F10b/F10d histories are instances, C02_f10_ops_x_nonvacuous), every operation followed by a full "
          "read, from construct() and on the Pipeline model (C02_cover_sequential_partial, C02_cover_from_start_partial, "
-         "C02_cover_sequential_pipeline_partial); the probe law (C02_probe) and the non-recursive law (C02_flat); the pinned code is "
+         "C02_cover_sequential_pipeline_partial); no stale descriptor in the reader's tables at any drained point of these histories - every key of _path_for_wd and every value of _wd_for_path is a live kernel watch (clauses of the watch invariant; C02_tables_live_synced, C02_tables_live, and as C11's hypothesis C02_tidy_from); "
+         "the probe law (C02_probe) and the non-recursive law (C02_flat); the pinned code is "
          "refuted (C02_pinned_movein_refuted, C02_pinned_mkdir_rename_refuted, and with c_fix_moveout := false C02_f10d_pinned_refuted, "
          "C02_f10b_pinned_stale). Extra hypotheses of the move-out theorems: full event mask; the operation right after a directory "
          "move-out is a covered operation in a directory of the tree (so it produces a record) that notifies no directory at or "
